@@ -274,6 +274,8 @@ def T(x):
         return z3.IntVal(int(x))
     if tx is int:
         return z3.IntVal(x)
+    if isinstance(x, int):              # IntEnum members and other int subclasses
+        return z3.IntVal(int(x))
     raise Unsupported("cannot turn %r into an integer term" % (tx,))
 
 
@@ -520,6 +522,19 @@ class SymInt:
     def __rsub__(s, o):
         if type(o) is float: return o - s._real()
         return SymInt(T(o) - s.t)
+    def to_bytes(s, length, byteorder="big", *, signed=False):
+        """int.to_bytes on a symbolic integer: OverflowError outside the range (forks), else the base-256 digits"""
+        if signed:
+            raise Unsupported("to_bytes(signed=True)")
+        if s < 0:
+            raise OverflowError("can't convert negative int to unsigned")
+        if s >= (1 << (8 * length)):
+            raise OverflowError("int too big to convert")
+        ds, hi, _ = digits_of(s.t, 8, length)
+        ENG.add_axiom(hi == 0)
+        out = [SymInt(d) for d in ds]
+        return out if byteorder == "little" else out[::-1]
+
     def __neg__(s): return SymInt(-s.t)
     def __pos__(s): return s
     def __abs__(s): return SymInt(z3.If(s.t >= 0, s.t, -s.t))
@@ -703,7 +718,12 @@ def _defer_foreign_operands(cls):
                 def f(s, o, *rest):
                     to = type(o)
                     if to not in own and to not in (SymInt, SymBool, SymReal):
-                        return NotImplemented
+                        if isinstance(o, int):          # IntEnum members, int subclasses: their integer value
+                            o = int(o)
+                        elif isinstance(o, float):
+                            o = float(o)
+                        else:
+                            return NotImplemented
                     return meth(s, o, *rest)
                 return f
             setattr(cls, pre + nm + "__", wrap(meth))
